@@ -3,11 +3,10 @@ package main
 import (
 	"fmt"
 	"os"
+	"strings"
 
 	abci "github.com/cometbft/cometbft/abci/types"
-	sdkmath "cosmossdk.io/math"
-	evmtypes "github.com/palomachain/paloma/v2/x/evm/types"
-	treasurytypes "github.com/palomachain/paloma/v2/x/treasury/types"
+	"github.com/palomachain/paloma/v2/zzverif/evmref"
 	"github.com/palomachain/paloma/v2/zzverif/hist"
 	"github.com/palomachain/paloma/v2/zzverif/world"
 )
@@ -19,84 +18,49 @@ func init() {
 	}
 }
 
+// histProbe prints, per block, the failed txs and the turnstone queues of both chains plus the
+// snapshot that is live on each chain: a reading aid for the scripted history.
 func histProbe() {
-	var run *hist.Run
+	last := ""
+	events := map[string]int{}
 	h := hist.Hooks{
-		Mutate: func(i int, txs []hist.Tx) []hist.Tx {
-			for _, t := range txs {
-				for _, m := range t.Msgs {
-					if u, ok := m.(*treasurytypes.MsgUpsertRelayerFee); ok {
-						_ = u
-						_ = sdkmath.LegacyNewDec
-					}
-				}
-			}
-			return txs
-		},
 		OnBlock: func(i int, height int64, resp *abci.ResponseFinalizeBlock) {
 			for k, r := range resp.TxResults {
-				if r.Code != 0 && (i > 295 || i <= 20) {
-					fmt.Println("blk", i, "tx", k, "code", r.Code, r.Log[:min(len(r.Log), 150)])
+				if r.Code != 0 {
+					fmt.Println("blk", i, "tx", k, "code", r.Code, r.Log[:min(len(r.Log), 160)])
 				}
+				for _, e := range r.Events {
+					events[e.Type]++
+				}
+			}
+			for _, e := range resp.Events {
+				events[e.Type]++
 			}
 		},
 		BeforeBlock: func(i int, r *hist.Run) {
-			run = r
-			if i == 299 || i == 301 || i == 303 || i == 306 {
-				ctx0 := r.W.App.NewUncachedContext(false, r.W.Root.BlockHeader())
-				for _, sub := range []string{"validators-balances", "reference-block"} {
-					for _, m := range r.W.Queue(ctx0, "evm/"+hist.Ref+"/"+sub) {
-						cm, _ := m.ConsensusMsg(r.W.App.AppCodec())
-						fmt.Printf("  blk %d %s msg %d sigs=%d ev=%d %v\n", i, sub, m.GetId(), len(m.GetSignData()), len(m.GetEvidence()), cm)
-					}
+			ctx0 := r.W.App.NewUncachedContext(false, r.W.Root.BlockHeader())
+			var parts []string
+			for _, ref := range []string{hist.Ref, hist.Ref2} {
+				on, _ := r.W.App.ValsetKeeper.GetLatestSnapshotOnChain(ctx0, ref)
+				p := fmt.Sprintf("%s live=%d:", ref, on.GetId())
+				for _, m := range r.W.Queue(ctx0, world.TurnstoneQueue(ref)) {
+					p += fmt.Sprintf(" [%d %s est=%d sig=%d pad=%v err=%v ev=%d]", m.GetId(), evmref.Kind(r.W, m), m.GetGasEstimate(), len(m.GetSignData()), m.GetPublicAccessData() != nil, m.GetErrorData() != nil, len(m.GetEvidence()))
 				}
+				parts = append(parts, p)
 			}
-			if i == 55 {
-				ctx0 := r.W.App.NewUncachedContext(false, r.W.Root.BlockHeader())
-				sn, _ := r.W.App.ValsetKeeper.GetCurrentSnapshot(ctx0)
-				on, _ := r.W.App.ValsetKeeper.GetLatestSnapshotOnChain(ctx0, hist.Ref)
-				fmt.Println("snapshot id", sn.GetId(), "created", sn.CreatedAt, "on-chain", on.GetId(), on.CreatedAt)
-				for _, v := range sn.Validators {
-					fmt.Println("   ", v.Address.String()[len(v.Address.String())-6:], v.ShareCount)
-				}
-			}
-			if false {
-				ctx := r.W.App.NewUncachedContext(false, r.W.Root.BlockHeader())
-				for _, m := range r.W.Queue(ctx, world.TurnstoneQueue(hist.Ref)) {
-					cm, _ := m.ConsensusMsg(r.W.App.AppCodec())
-					em := cm.(*evmtypes.Message)
-					fmt.Printf("  blk %d msg %d assignee %s est=%d sigs=%d\n", i, m.GetId(), em.Assignee[len(em.Assignee)-6:], m.GetGasEstimate(), len(m.GetSignData()))
-				}
-				for _, v := range r.W.Vals {
-					fmt.Println("   val", v.Name, v.ValAddr.String()[len(v.ValAddr.String())-6:])
-				}
+			cur, _ := r.W.App.ValsetKeeper.GetCurrentSnapshot(ctx0)
+			line := fmt.Sprintf("cur=%d %s", cur.GetId(), strings.Join(parts, " | "))
+			if line != last {
+				fmt.Println("before blk", i, line)
+				last = line
 			}
 		},
 	}
-	out, r := hist.Execute(h)
-	fmt.Println("blocks", len(out), "panic", r.Panic, r.PanicAt)
-	_ = run
-}
-
-func init() {
-	if len(os.Args) > 1 && os.Args[1] == "pick" {
-		w := world.New(world.Config{Stakes: world.StakesOf(1_000_000, 1_000_000, 1_000_000, 500_000), Users: []string{"U1"}, Height: 101})
-		ctx := w.Root
-		must(w.StdChain(ctx, hist.Ref))
-		vm, err := w.App.MetrixKeeper.Validators(ctx, nil)
-		fmt.Println(err)
-		for _, m := range vm.ValMetrics {
-			fmt.Printf("%s uptime=%s succ=%s exec=%s feat=%s\n", m.ValAddress[len(m.ValAddress)-6:], m.Uptime, m.SuccessRate, m.ExecutionTime, m.FeatureSet)
+	out, run := hist.Execute(h)
+	fmt.Println("blocks", len(out), "txs", run.TxCount, "ok", run.TxOK, "panic", run.Panic)
+	for k, v := range events {
+		if strings.Contains(k, "paloma") || strings.Contains(k, "Attest") || strings.Contains(k, "attest") {
+			fmt.Println("  event", k, v)
 		}
-		fees, err := w.App.TreasuryKeeper.GetRelayerFeesByChainReferenceID(ctx, hist.Ref)
-		fmt.Println(fees, err)
-		for i := 0; i < 8; i++ {
-			c := world.Advance(ctx, int64(i), 0)
-			c = world.At(c, c.BlockHeight(), c.BlockTime().Add(1e9*1))
-			ctx = c
-			a, r, err := w.App.EvmKeeper.PickValidatorForMessage(c, hist.Ref, nil)
-			fmt.Println(c.BlockTime().Unix()%4, a[len(a)-6:], r, err)
-		}
-		os.Exit(0)
 	}
 }
